@@ -3,7 +3,7 @@ C15 — TPuts strips only padding; TGoto and TColor are right for every terminal
 Models: Tcell.Model.TPuts (TPuts / TGoto / TColor of terminfo.go:596-675), Tcell.Model.TParm.
 References: Tcell.Spec.TermCaps (padding grammar, addressing conventions, SGR decoder).
 -/
-import Tcell.Lemmas.TParm
+import Tcell.Lemmas.Cup
 import Tcell.Gen.TerminfoDB
 namespace Tcell.Props.C15
 open Tcell Tcell.TParm Tcell.TPuts Tcell.Spec.TermCaps
@@ -41,28 +41,6 @@ ever taken, whatever the string. -/
 theorem delay_only_with_padchar (st : Bool) (s : Bytes) : (tputsV st [] s).delays = [] :=
   tputsAux_delays_nil st _ s {} rfl
 
-theorem findMarker_split (s pre post : Bytes) (h : findMarker s = some (pre, post)) :
-    s = pre ++ 36 :: 60 :: post := by
-  induction s generalizing pre with
-  | nil => simp [findMarker] at h
-  | cons b r ih =>
-    simp only [findMarker] at h
-    split at h
-    · rename_i hb
-      simp only [Bool.and_eq_true, beq_iff_eq] at hb
-      simp only [Option.some.injEq, Prod.mk.injEq] at h
-      obtain ⟨rfl, rfl⟩ := h
-      cases r with
-      | nil => simp at hb
-      | cons c r' => simp at hb; simp [hb.1, hb.2]
-    · cases hf : findMarker r with
-      | none => simp [hf] at h
-      | some pp =>
-        obtain ⟨p1, p2⟩ := pp
-        simp only [hf, Option.some.injEq, Prod.mk.injEq] at h
-        obtain ⟨rfl, rfl⟩ := h
-        simp [ih p1 hf]
-
 /-- A string without `$<` is written unchanged. -/
 theorem no_marker_identity (st : Bool) (pad s : Bytes) (h : findMarker s = none) : (tputsV st pad s).bytes = s := by
   simp [tputsV, tputsAux, h]
@@ -77,45 +55,37 @@ theorem unterminated_verbatim (st : Bool) (pad s pre post : Bytes) (h : findMark
 example : (tputsV false [] [97,36,60,53]).bytes = [97,36,60,53] :=
   unterminated_verbatim false [] _ [97] [53] (by decide) (by decide)
 
-theorem matchPad_none_of (b : Nat) (r : Bytes) (h : ¬ (b = 36 ∧ r.head? = some 60)) : matchPad (b :: r) = none := by
-  unfold matchPad
-  split
-  · rename_i heq
-    simp only [List.cons.injEq] at heq
-    obtain ⟨rfl, rfl⟩ := heq
-    exact absurd ⟨rfl, by simp⟩ h
-  · rfl
+/-- **`tputs_spec`**: for EVERY byte string `s` and any pad character, the bytes the repaired TPuts (terminfo.go
+596-644 at /repo HEAD: `strings.Index` for `$<`, then for `>`, `isPadding`) writes are exactly `s` with every
+well-formed padding specification `$< digit+ [. digit*] (*|/)* >` removed, as the grammar-directed reference
+`stripPadding` defines it: a `$<…>` whose content is not a padding specification stays, an unterminated `$<` stays,
+scanning resumes right after a kept `$<` (so `$<$<5>` loses only the inner specification).  For the pinned code the
+statement is false (`tputs_nonpadding_counterexample`). -/
+theorem tputs_spec (pad s : Bytes) : (tputsV true pad s).bytes = stripPadding s := by
+  have := tputsAux_bytes pad (s.length + 1) s {} (Nat.lt_succ_self _)
+  simpa [tputsV] using this
 
-theorem strip_no_marker (s : Bytes) (f : Nat) (hf : s.length ≤ f) (h : findMarker s = none) : stripAux f s = s := by
-  induction s generalizing f with
-  | nil => cases f <;> simp [stripAux]
-  | cons b r ih =>
-    cases f with
-    | zero => simp at hf
-    | succ f =>
-      simp only [findMarker] at h
-      split at h
-      · simp at h
-      · rename_i hb
-        have hb' : ¬ (b = 36 ∧ r.head? = some 60) := by simpa using hb
-        have hr : findMarker r = none := by
-          cases hfm : findMarker r with
-          | none => rfl
-          | some p => simp [hfm] at h
-        simp only [stripAux, matchPad_none_of b r hb']
-        rw [ih f (by simp at hf; omega) hr]
+example : (tputsV true [0] [36,60,36,60,53,62,120,36,60,49,46,62,36,60,46,62]).bytes = [36,60,120,36,60,46,62] := by decide
 
-/-- PARTIAL `tputs_spec` (`(TPuts s).bytes = stripPadding s`): proved for every string without a `$<` – there both the
-code (pinned or repaired, any pad character) and the reference leave the string unchanged.  Not proved: strings with
-markers (for the pinned code the statement is false, `tputs_nonpadding_counterexample`; for the repaired code and for
-strings whose every `$<…>` is a padding specification it is checked by the differential correspondence and the
-reference oracle on ~20 000 / 500 000 generated strings per run); `output_is_subsequence` is not proved either. -/
-theorem tputs_spec_partial (st : Bool) (pad s : Bytes) (h : findMarker s = none) :
-    (tputsV st pad s).bytes = stripPadding s := by
-  rw [no_marker_identity st pad s h, stripPadding, strip_no_marker s _ (Nat.le_refl _) h]
+/-- the same for the model variant that mirrors the tree under check -/
+theorem tputs_spec_current (pad s : Bytes) : (tputs pad s).bytes = stripPadding s := tputs_spec pad s
 
-example : (tputsV false [0] [27,91,72,36,62,60]).bytes = stripPadding [27,91,72,36,62,60] :=
-  tputs_spec_partial false [0] _ (by decide)
+/-- what TPuts writes is a subsequence of the string (it only ever removes bytes) -/
+theorem output_is_subsequence (pad s : Bytes) : ((tputsV true pad s).bytes).Sublist s := by
+  rw [tputs_spec]; exact strip_sublist s
+
+/-- on a terminal with a pad character the delays TPuts sleeps are, in order, those of exactly the padding
+specifications the reference grammar recognises (`padSpecs`), each converted by the code's `n[.m]` ms arithmetic
+(`delayOf`: digits accumulate, every digit after the dot divides the unit by ten) -/
+theorem tputs_delays (pad s : Bytes) (h : pad ≠ []) :
+    (tputsV true pad s).delays = (padSpecs s).map delayOf := by
+  have hp : pad.isEmpty = false := by cases pad <;> simp_all
+  have := tputsAux_delays pad hp (s.length + 1) s {} (Nat.lt_succ_self _)
+  simpa [tputsV] using this
+
+example : (tputsV true [0] [97,36,60,53,62,98,36,60,120,62,36,60,49,46,53,42,62]).delays = [5000000, 1500000] ∧
+    padSpecs [97,36,60,53,62,98,36,60,120,62,36,60,49,46,53,42,62] = [[53], [49,46,53,42]] := by decide
+
 /-! ### TGoto: closed forms of every distinct SetCursor program of the database -/
 
 /-- `ESC [ %i %p1 %d ; %p2 %d H` -/
@@ -201,13 +171,110 @@ theorem db_cursor_family : ∀ e ∈ Gen.db, stripPadding e.setCursor = cupOf (f
   intro e he
   simpa using List.all_eq_true.mp h e he
 
-/-- decoder round trip on boundary positions of every family (kernel evaluation; the general statement needs the
-decimal round-trip lemma and is not proved – the per-family decoders are exercised on all of 0..300 x 0..300 by
-the oracle in the thorough tier) -/
-theorem decode_encode_sample_partial :
-    ([CupFamily.ansi, .vt52, .wyse, .hp].all fun fam => [0,1,9,10,99,100,223,224,255,256,299,300].all fun r =>
-      [0,1,9,10,99,100,223,224,255,256,299,300].all fun c =>
-        !fam.expressible r c || fam.decode (fam.encode r c) == some (r, c)) = true := by decide +kernel
+/-- every per-family decoder inverts the convention's encoder, for ALL rows and columns (no bound) -/
+theorem decode_encode_all (fam : CupFamily) (row col : Nat) : fam.decode (fam.encode row col) = some (row, col) :=
+  decode_encode fam row col
+
+/-- each entry's (SetCursor program, convention of its name) is one of six known pairs -/
+def knownCupFam : List (Bytes × CupFamily) :=
+  [(cupAnsi, .ansi), (cupAnsi ++ [36,60,53,62], .ansi), (cupAnsi ++ [36,60,49,48,62], .ansi),
+   (cupHp, .hp), (cupVt52, .vt52), (cupWyse, .wyse)]
+
+theorem db_cursor_known_family : ∀ e ∈ Gen.db, (e.setCursor, familyOfName e.name) ∈ knownCupFam := by
+  have h : (Gen.db.all fun e => knownCupFam.contains (e.setCursor, familyOfName e.name)) = true := by decide +kernel
+  intro e he
+  simpa using List.all_eq_true.mp h e he
+
+theorem strip_four (a b : Nat) (x y : Nat) (hx : x ≠ 36) (hy : y ≠ 36) : stripPadding [x, y, a, b] = [x, y, a, b] := by
+  have h3 : matchPad [a, b] = none := by
+    unfold matchPad
+    split
+    · rename_i r heq
+      simp only [List.cons.injEq] at heq
+      obtain ⟨_, _, rfl⟩ := heq
+      rfl
+    · rfl
+  rw [strip_cons, matchPad_none_of' x _ (by intro h; exact hx h.1)]
+  simp only
+  rw [strip_cons, matchPad_none_of' y _ (by intro h; exact hy h.1)]
+  simp only
+  rw [strip_cons, h3]
+  simp only
+  rw [strip_cons, matchPad_none_of' b [] (by simp)]
+  rfl
+
+theorem digits_no36 (n : Nat) : ∀ b ∈ natDigits n, b ≠ 36 := by
+  intro b hb
+  have := (isDigit_iff b).mp (natDigits_digits n b hb)
+  omega
+
+/-- **TGoto, general statement.**  For every built-in entry and EVERY position the entry's addressing convention can
+express (ANSI and HP: all rows/columns a Go `int` can hold after the 1-based shift, i.e. `< 2^63 - 1`; the offset-32
+conventions VT52 / Wyse: `row, col < 224`), the bytes that reach the terminal for `TGoto(col,row)` (capability output
+with the padding removed) are exactly the string the convention defines for that position … -/
+theorem tgoto_is_encode : ∀ e ∈ Gen.db, ∀ (row col : Nat) (sv : Vars),
+    (familyOfName e.name).expressible row col = true → row < 9223372036854775807 → col < 9223372036854775807 →
+    stripPadding (tgoto e (col : Int) (row : Int) sv).1 = (familyOfName e.name).encode row col := by
+  intro e he row col sv hx hr hc
+  have hk := db_cursor_known_family e he
+  have hr1 : wrap64 ((row : Int) + 1) = ((row + 1 : Nat) : Int) := by
+    rw [ansi_param _ (by omega) (by unfold maxInt64; omega)]; omega
+  have hc1 : wrap64 ((col : Int) + 1) = ((col + 1 : Nat) : Int) := by
+    rw [ansi_param _ (by omega) (by unfold maxInt64; omega)]; omega
+  have hansi : ∀ b ∈ [27, 91] ++ natDigits (row + 1) ++ [59] ++ natDigits (col + 1) ++ [72], b ≠ 36 := by
+    intro b hb
+    simp only [List.mem_append, List.mem_cons, List.mem_singleton, List.not_mem_nil, or_false] at hb
+    rcases hb with (((hb | hb) | hb) | hb) | hb
+    · omega
+    · exact digits_no36 _ b hb
+    · omega
+    · exact digits_no36 _ b hb
+    · omega
+  generalize hfam : familyOfName e.name = fam at hk hx
+  simp only [knownCupFam, List.mem_cons, Prod.mk.injEq, List.not_mem_nil, or_false] at hk
+  simp only [tgoto, tparm]
+  rcases hk with ⟨hp, rfl⟩ | ⟨hp, rfl⟩ | ⟨hp, rfl⟩ | ⟨hp, rfl⟩ | ⟨hp, rfl⟩ | ⟨hp, rfl⟩
+  · rw [hp, cup_ansi, hr1, hc1, itoa_nonneg, itoa_nonneg]
+    exact strip_no36 _ hansi
+  · rw [hp, cup_ansi_pad5, hr1, hc1, itoa_nonneg, itoa_nonneg, strip_append_no36 _ _ hansi]
+    simp only [CupFamily.encode, show stripPadding [36,60,53,62] = [] by decide, List.append_nil]
+  · rw [hp, cup_ansi_pad10, hr1, hc1, itoa_nonneg, itoa_nonneg, strip_append_no36 _ _ hansi]
+    simp only [CupFamily.encode, show stripPadding [36,60,49,48,62] = [] by decide, List.append_nil]
+  · rw [hp, cup_hp, itoa_nonneg, itoa_nonneg]
+    apply strip_no36
+    intro b hb
+    simp only [List.mem_append, List.mem_cons, List.mem_singleton, List.not_mem_nil, or_false] at hb
+    rcases hb with ((((hb | hb | hb) | hb) | hb) | hb) | hb
+    · omega
+    · omega
+    · omega
+    · exact digits_no36 _ b hb
+    · omega
+    · exact digits_no36 _ b hb
+    · omega
+  · simp only [CupFamily.expressible, Bool.and_eq_true, decide_eq_true_eq] at hx
+    rw [hp, cup_vt52, offset32_byte _ (by omega) (by omega), offset32_byte _ (by omega) (by omega)]
+    simp only [Int.toNat_natCast, CupFamily.encode]
+    exact strip_four _ _ 27 89 (by decide) (by decide)
+  · simp only [CupFamily.expressible, Bool.and_eq_true, decide_eq_true_eq] at hx
+    rw [hp, cup_wyse, offset32_byte _ (by omega) (by omega), offset32_byte _ (by omega) (by omega)]
+    simp only [Int.toNat_natCast, CupFamily.encode]
+    exact strip_four _ _ 27 61 (by decide) (by decide)
+
+/-- … and hence the decoder of the entry's convention reads back exactly `(row, col)`:
+`decodeFamily (TGoto col row) = (col, row)` for all expressible positions of every built-in terminal
+(this replaces the sampled `decode_encode_sample_partial`). -/
+theorem tgoto_decode : ∀ e ∈ Gen.db, ∀ (row col : Nat) (sv : Vars),
+    (familyOfName e.name).expressible row col = true → row < 9223372036854775807 → col < 9223372036854775807 →
+    (familyOfName e.name).decode (stripPadding (tgoto e (col : Int) (row : Int) sv).1) = some (row, col) := by
+  intro e he row col sv hx hr hc
+  rw [tgoto_is_encode e he row col sv hx hr hc]
+  exact decode_encode _ row col
+
+/-- the hypotheses are satisfiable: the database has entries of every convention, and (4, 28) – whose VT52 encoding
+`ESC Y $ <` even contains the bytes of a padding marker – is expressible -/
+example : ([CupFamily.ansi, .vt52, .wyse, .hp].all fun fam => Gen.db.any fun e => familyOfName e.name == fam) = true
+    ∧ CupFamily.vt52.expressible 4 28 = true ∧ CupFamily.vt52.encode 4 28 = [27, 89, 36, 60] := by decide +kernel
 
 /-! ### TColor (terminfo.go:654-675) -/
 
@@ -272,5 +339,161 @@ theorem setaf_256 (v : Variant) (n : Int) (sv : Vars) :
   · by_cases h16 : n < 16
     · simp [tparmV, run, step, execOp, skipOp, pad9, put, popInt, hd0, isDigit, Value.toInt, binop, readInt, ofBool, h8, h16, wrap64, two63, two64]
     · simp [tparmV, run, step, execOp, skipOp, pad9, put, popInt, hd0, isDigit, Value.toInt, binop, readInt, ofBool, h8, h16, wrap64, two63, two64]
+
+/-! ### closed forms of every distinct SetFg / SetBg / SetFgBg program of the database, for ALL colour indices -/
+
+/-- `ESC [ %? %p1 %{8} %< %t 3 %p1 %d %e %p1 %{16} %< %t 9 %p1 %{8} %- %d %e 38;5; %p1 %d %; m` -/
+def setaf256 : Bytes := [27,91,37,63,37,112,49,37,123,56,125,37,60,37,116,51,37,112,49,37,100,37,101,37,112,49,37,123,49,54,125,37,60,37,116,57,37,112,49,37,123,56,125,37,45,37,100,37,101,51,56,59,53,59,37,112,49,37,100,37,59,109]
+/-- the same with `4`, `10`, `48;5;` -/
+def setab256 : Bytes := [27,91,37,63,37,112,49,37,123,56,125,37,60,37,116,52,37,112,49,37,100,37,101,37,112,49,37,123,49,54,125,37,60,37,116,49,48,37,112,49,37,123,56,125,37,45,37,100,37,101,52,56,59,53,59,37,112,49,37,100,37,59,109]
+/-- foot: `38:5:` / `48:5:` -/
+def setafFoot : Bytes := [27,91,37,63,37,112,49,37,123,56,125,37,60,37,116,51,37,112,49,37,100,37,101,37,112,49,37,123,49,54,125,37,60,37,116,57,37,112,49,37,123,56,125,37,45,37,100,37,101,51,56,58,53,58,37,112,49,37,100,37,59,109]
+def setabFoot : Bytes := [27,91,37,63,37,112,49,37,123,56,125,37,60,37,116,52,37,112,49,37,100,37,101,37,112,49,37,123,49,54,125,37,60,37,116,49,48,37,112,49,37,123,56,125,37,45,37,100,37,101,52,56,58,53,58,37,112,49,37,100,37,59,109]
+/-- eterm-color: `ESC [ %p1 %{30} %+ %d m` and `ESC [ %p1 %'(' %+ %d m` -/
+def setafEterm : Bytes := [27,91,37,112,49,37,123,51,48,125,37,43,37,100,109]
+def setabEterm : Bytes := [27,91,37,112,49,37,39,40,39,37,43,37,100,109]
+/-- rxvt-unicode, sun-color: `ESC [ 38;5; %p1 %d m` / `ESC [ 48;5; %p1 %d m` -/
+def setafRxvt : Bytes := [27,91,51,56,59,53,59,37,112,49,37,100,109]
+def setabRxvt : Bytes := [27,91,52,56,59,53,59,37,112,49,37,100,109]
+/-- `ESC [ 3 %p1 %d m` / `ESC [ 4 %p1 %d m` -/
+def setafBasic : Bytes := [27,91,51,37,112,49,37,100,109]
+def setabBasic : Bytes := [27,91,52,37,112,49,37,100,109]
+/-- SetFgBg programs -/
+def fgbgBasic : Bytes := [27,91,51,37,112,49,37,100,59,52,37,112,50,37,100,109]
+def fgbg256 : Bytes := [27,91,37,63,37,112,49,37,123,56,125,37,60,37,116,51,37,112,49,37,100,37,101,37,112,49,37,123,49,54,125,37,60,37,116,57,37,112,49,37,123,56,125,37,45,37,100,37,101,51,56,59,53,59,37,112,49,37,100,37,59,59,37,63,37,112,50,37,123,56,125,37,60,37,116,52,37,112,50,37,100,37,101,37,112,50,37,123,49,54,125,37,60,37,116,49,48,37,112,50,37,123,56,125,37,45,37,100,37,101,52,56,59,53,59,37,112,50,37,100,37,59,109]
+def fgbgEterm : Bytes := [27,91,37,112,49,37,123,51,48,125,37,43,37,100,59,37,112,50,37,39,40,39,37,43,37,100,109]
+def fgbgFoot : Bytes := [27,91,37,63,37,112,49,37,123,56,125,37,60,37,116,51,37,112,49,37,100,37,101,37,112,49,37,123,49,54,125,37,60,37,116,57,37,112,49,37,123,56,125,37,45,37,100,37,101,51,56,58,53,58,37,112,49,37,100,37,59,59,37,63,37,112,50,37,123,56,125,37,60,37,116,52,37,112,50,37,100,37,101,37,112,50,37,123,49,54,125,37,60,37,116,49,48,37,112,50,37,123,56,125,37,45,37,100,37,101,52,56,58,53,58,37,112,50,37,100,37,59,109]
+def fgbgRxvt : Bytes := [27,91,51,56,59,53,59,37,112,49,37,100,59,52,56,59,53,59,37,112,50,37,100,109]
+
+def knownSetFg : List Bytes := [[], setafBasic, setaf256, setafFoot, setafEterm, setafRxvt]
+def knownSetBg : List Bytes := [[], setabBasic, setab256, setabFoot, setabEterm, setabRxvt]
+def knownSetFgBg : List Bytes := [[], fgbgBasic, fgbg256, fgbgFoot, fgbgEterm, fgbgRxvt]
+
+/-- Every built-in entry's SetFg / SetBg / SetFgBg is the empty string or one of the programs with a closed form
+below (kernel evaluation over the regenerated database; a new entry with another program re-opens this). -/
+theorem db_color_known : ∀ e ∈ Gen.db,
+    e.setFg ∈ knownSetFg ∧ e.setBg ∈ knownSetBg ∧ e.setFgBg ∈ knownSetFgBg := by
+  have h : (Gen.db.all fun e => knownSetFg.contains e.setFg && knownSetBg.contains e.setBg
+      && knownSetFgBg.contains e.setFgBg) = true := by decide +kernel
+  intro e he
+  have := List.all_eq_true.mp h e he
+  simpa [Bool.and_eq_true, and_assoc] using this
+
+/-- the selection a 256-colour program makes: `a n` for the basic eight, `b (n-8)` for the bright eight, else the
+extended form `c n` -/
+def sgr256 (a b c : Bytes) (n : Int) : Bytes :=
+  if n < 8 then a ++ itoa n else if n < 16 then b ++ itoa (wrap64 (n - 8)) else c ++ itoa n
+
+theorem tparm_empty (v : Variant) (ps : List Value) (sv : Vars) : tparmV v [] ps sv = ([], sv) := by
+  simp [tparmV, run]
+
+set_option maxRecDepth 4000 in
+theorem setaf_basic_cf (v : Variant) (n : Int) (sv : Vars) :
+    tparmV v setafBasic [.int n] sv = ([27, 91, 51] ++ itoa n ++ [109], sv) := by
+  simp [tparmV, setafBasic, run, step, execOp, pad9, put, popInt, hd0, isDigit, Value.toInt]
+
+set_option maxRecDepth 4000 in
+theorem setab_basic_cf (v : Variant) (n : Int) (sv : Vars) :
+    tparmV v setabBasic [.int n] sv = ([27, 91, 52] ++ itoa n ++ [109], sv) := by
+  simp [tparmV, setabBasic, run, step, execOp, pad9, put, popInt, hd0, isDigit, Value.toInt]
+
+set_option maxRecDepth 4000 in
+theorem setaf_rxvt (v : Variant) (n : Int) (sv : Vars) :
+    tparmV v setafRxvt [.int n] sv = ([27, 91, 51, 56, 59, 53, 59] ++ itoa n ++ [109], sv) := by
+  simp [tparmV, setafRxvt, run, step, execOp, pad9, put, popInt, hd0, isDigit, Value.toInt]
+
+set_option maxRecDepth 4000 in
+theorem setab_rxvt (v : Variant) (n : Int) (sv : Vars) :
+    tparmV v setabRxvt [.int n] sv = ([27, 91, 52, 56, 59, 53, 59] ++ itoa n ++ [109], sv) := by
+  simp [tparmV, setabRxvt, run, step, execOp, pad9, put, popInt, hd0, isDigit, Value.toInt]
+
+set_option maxRecDepth 4000 in
+/-- eterm-color foreground: `30 + n` -/
+theorem setaf_eterm (v : Variant) (n : Int) (sv : Vars) :
+    tparmV v setafEterm [.int n] sv = ([27, 91] ++ itoa (wrap64 (n + 30)) ++ [109], sv) := by
+  simp [tparmV, setafEterm, run, step, execOp, pad9, put, popInt, hd0, isDigit, Value.toInt, binop, readInt, wrap64,
+    two63, two64]
+
+set_option maxRecDepth 4000 in
+/-- eterm-color background: `40 + n` (`%'('` pushes 40) -/
+theorem setab_eterm (v : Variant) (n : Int) (sv : Vars) :
+    tparmV v setabEterm [.int n] sv = ([27, 91] ++ itoa (wrap64 (n + 40)) ++ [109], sv) := by
+  simp [tparmV, setabEterm, run, step, execOp, pad9, put, popInt, hd0, isDigit, Value.toInt, binop]
+
+set_option maxRecDepth 8000 in
+theorem setaf_256_cf (v : Variant) (n : Int) (sv : Vars) :
+    tparmV v setaf256 [.int n] sv = ([27, 91] ++ sgr256 [51] [57] [51,56,59,53,59] n ++ [109], sv) := by
+  by_cases h8 : n < 8
+  · simp [sgr256, tparmV, setaf256, run, step, execOp, skipOp, pad9, put, popInt, hd0, isDigit, Value.toInt, binop, readInt, ofBool, h8, wrap64, two63, two64]
+  · by_cases h16 : n < 16
+    · simp [sgr256, tparmV, setaf256, run, step, execOp, skipOp, pad9, put, popInt, hd0, isDigit, Value.toInt, binop, readInt, ofBool, h8, h16, wrap64, two63, two64]
+    · simp [sgr256, tparmV, setaf256, run, step, execOp, skipOp, pad9, put, popInt, hd0, isDigit, Value.toInt, binop, readInt, ofBool, h8, h16, wrap64, two63, two64]
+
+set_option maxRecDepth 8000 in
+theorem setab_256_cf (v : Variant) (n : Int) (sv : Vars) :
+    tparmV v setab256 [.int n] sv = ([27, 91] ++ sgr256 [52] [49,48] [52,56,59,53,59] n ++ [109], sv) := by
+  by_cases h8 : n < 8
+  · simp [sgr256, tparmV, setab256, run, step, execOp, skipOp, pad9, put, popInt, hd0, isDigit, Value.toInt, binop, readInt, ofBool, h8, wrap64, two63, two64]
+  · by_cases h16 : n < 16
+    · simp [sgr256, tparmV, setab256, run, step, execOp, skipOp, pad9, put, popInt, hd0, isDigit, Value.toInt, binop, readInt, ofBool, h8, h16, wrap64, two63, two64]
+    · simp [sgr256, tparmV, setab256, run, step, execOp, skipOp, pad9, put, popInt, hd0, isDigit, Value.toInt, binop, readInt, ofBool, h8, h16, wrap64, two63, two64]
+
+set_option maxRecDepth 8000 in
+theorem setaf_foot (v : Variant) (n : Int) (sv : Vars) :
+    tparmV v setafFoot [.int n] sv = ([27, 91] ++ sgr256 [51] [57] [51,56,58,53,58] n ++ [109], sv) := by
+  by_cases h8 : n < 8
+  · simp [sgr256, tparmV, setafFoot, run, step, execOp, skipOp, pad9, put, popInt, hd0, isDigit, Value.toInt, binop, readInt, ofBool, h8, wrap64, two63, two64]
+  · by_cases h16 : n < 16
+    · simp [sgr256, tparmV, setafFoot, run, step, execOp, skipOp, pad9, put, popInt, hd0, isDigit, Value.toInt, binop, readInt, ofBool, h8, h16, wrap64, two63, two64]
+    · simp [sgr256, tparmV, setafFoot, run, step, execOp, skipOp, pad9, put, popInt, hd0, isDigit, Value.toInt, binop, readInt, ofBool, h8, h16, wrap64, two63, two64]
+
+set_option maxRecDepth 8000 in
+theorem setab_foot (v : Variant) (n : Int) (sv : Vars) :
+    tparmV v setabFoot [.int n] sv = ([27, 91] ++ sgr256 [52] [49,48] [52,56,58,53,58] n ++ [109], sv) := by
+  by_cases h8 : n < 8
+  · simp [sgr256, tparmV, setabFoot, run, step, execOp, skipOp, pad9, put, popInt, hd0, isDigit, Value.toInt, binop, readInt, ofBool, h8, wrap64, two63, two64]
+  · by_cases h16 : n < 16
+    · simp [sgr256, tparmV, setabFoot, run, step, execOp, skipOp, pad9, put, popInt, hd0, isDigit, Value.toInt, binop, readInt, ofBool, h8, h16, wrap64, two63, two64]
+    · simp [sgr256, tparmV, setabFoot, run, step, execOp, skipOp, pad9, put, popInt, hd0, isDigit, Value.toInt, binop, readInt, ofBool, h8, h16, wrap64, two63, two64]
+
+set_option maxRecDepth 4000 in
+theorem fgbg_basic (v : Variant) (f b : Int) (sv : Vars) :
+    tparmV v fgbgBasic [.int f, .int b] sv = ([27, 91, 51] ++ itoa f ++ [59, 52] ++ itoa b ++ [109], sv) := by
+  simp [tparmV, fgbgBasic, run, step, execOp, pad9, put, popInt, hd0, isDigit, Value.toInt]
+
+set_option maxRecDepth 4000 in
+theorem fgbg_rxvt (v : Variant) (f b : Int) (sv : Vars) :
+    tparmV v fgbgRxvt [.int f, .int b] sv =
+      ([27, 91, 51, 56, 59, 53, 59] ++ itoa f ++ [59, 52, 56, 59, 53, 59] ++ itoa b ++ [109], sv) := by
+  simp [tparmV, fgbgRxvt, run, step, execOp, pad9, put, popInt, hd0, isDigit, Value.toInt]
+
+set_option maxRecDepth 4000 in
+theorem fgbg_eterm (v : Variant) (f b : Int) (sv : Vars) :
+    tparmV v fgbgEterm [.int f, .int b] sv =
+      ([27, 91] ++ itoa (wrap64 (f + 30)) ++ [59] ++ itoa (wrap64 (b + 40)) ++ [109], sv) := by
+  simp [tparmV, fgbgEterm, run, step, execOp, pad9, put, popInt, hd0, isDigit, Value.toInt, binop, readInt, wrap64,
+    two63, two64]
+
+set_option maxRecDepth 16000 in
+set_option maxHeartbeats 1000000 in
+theorem fgbg_256 (v : Variant) (f b : Int) (sv : Vars) :
+    tparmV v fgbg256 [.int f, .int b] sv =
+      ([27, 91] ++ sgr256 [51] [57] [51,56,59,53,59] f ++ [59] ++ sgr256 [52] [49,48] [52,56,59,53,59] b ++ [109], sv) := by
+  by_cases hf8 : f < 8 <;> by_cases hf16 : f < 16 <;> by_cases hb8 : b < 8 <;> by_cases hb16 : b < 16 <;>
+    first
+      | (exfalso; omega)
+      | simp [sgr256, tparmV, fgbg256, run, step, execOp, skipOp, pad9, put, popInt, hd0, isDigit, Value.toInt, binop,
+          readInt, ofBool, hf8, hf16, hb8, hb16, wrap64, two63, two64]
+
+set_option maxRecDepth 16000 in
+set_option maxHeartbeats 1000000 in
+theorem fgbg_foot (v : Variant) (f b : Int) (sv : Vars) :
+    tparmV v fgbgFoot [.int f, .int b] sv =
+      ([27, 91] ++ sgr256 [51] [57] [51,56,58,53,58] f ++ [59] ++ sgr256 [52] [49,48] [52,56,58,53,58] b ++ [109], sv) := by
+  by_cases hf8 : f < 8 <;> by_cases hf16 : f < 16 <;> by_cases hb8 : b < 8 <;> by_cases hb16 : b < 16 <;>
+    first
+      | (exfalso; omega)
+      | simp [sgr256, tparmV, fgbgFoot, run, step, execOp, skipOp, pad9, put, popInt, hd0, isDigit, Value.toInt, binop,
+          readInt, ofBool, hf8, hf16, hb8, hb16, wrap64, two63, two64]
 
 end Tcell.Props.C15
